@@ -178,6 +178,9 @@ func VH_C06_markUsedByClosure() {
 	chain := make([]*Env, n)
 	for i := n - 1; i >= 0; i-- {
 		chain[i] = &Env{}
+		if vhBool("is a function body frame") {
+			chain[i].Caller = &Env{}
+		}
 		if i < n-1 {
 			chain[i].Outer = chain[i+1]
 		}
